@@ -216,6 +216,11 @@ class Node(object):
         self.integer_positions = integer_positions
         for c in self._childrenv:
             c.use_integer_positions(integer_positions)
+        # the shadow copy of a sub-strategy produces its price index: keep it
+        # in step when the setting is pushed after setup
+        paper = getattr(self, "_paper", None)
+        if paper is not None:
+            paper.use_integer_positions(integer_positions)
 
     @property
     def fixed_income(self):
